@@ -76,20 +76,21 @@ def run_case(n, adj, root, rng, agree, draws, sigma_scale):
     """adj: 1-based neighbour lists in table order -> events"""
     from gaddlemaps import move_mol_atom, find_atom_random_displ
     while True:
-        pos = rng.normal(size=(n, 3)) * rng.choice([0.3, 1.0, 3.0])
-        if n == 1 or min(np.linalg.norm(pos[i] - pos[j]) for i in range(n) for j in range(i)) > 1e-2:
+        unit = rng.choice([0.3, 1.0, 3.0, 1e-5, 1e3])          # any length unit: nothing in the rule is an absolute length
+        pos = rng.normal(size=(n, 3)) * unit
+        if n == 1 or min(np.linalg.norm(pos[i] - pos[j]) for i in range(n) for j in range(i)) > 1e-2 * unit:
             break
     lengths = {}
     for a in range(n):
         for b in adj[a]:
             key = (min(a, b - 1), max(a, b - 1))
             if key not in lengths:
-                lengths[key] = float(np.linalg.norm(pos[a] - pos[b - 1])) if agree else float(rng.uniform(0.05, 0.5))
+                lengths[key] = float(np.linalg.norm(pos[a] - pos[b - 1])) if agree else float(rng.uniform(0.05, 0.5)) * unit
     table = RecordingTable({a: [(b - 1, lengths[(min(a, b - 1), max(a, b - 1))]) for b in adj[a]]
                             for a in range(n) if adj[a] or True})
     ev = []
     # a null displacement is a legitimate displacement: the bonds must still be restored to the table
-    displ = rng.normal(size=3) * rng.choice([0.0, 1e-6, 0.05, 0.5], p=[0.1, 0.2, 0.4, 0.3])
+    displ = rng.normal(size=3) * rng.choice([0.0, 1e-6, 0.05, 0.5], p=[0.1, 0.2, 0.4, 0.3]) * unit
     keep = pos.copy()
     global _TIMEOUTS
     if _TIMEOUTS >= 2:
@@ -139,7 +140,7 @@ def run_case(n, adj, root, rng, agree, draws, sigma_scale):
         intact = intact and abs(float(np.linalg.norm(third[root - 1] - third[nb0])) - want) <= 1e-9 * want
         for a in list(table.keys()):
             dict.__setitem__(table, a, [(b, L / scale) for b, L in dict.__getitem__(table, a)])
-    ev.append({'op': 'End', 'finite': bool(np.isfinite(first).all()), 'exact': exact, 'others_intact': intact})
+    ev.append({'op': 'End', 'finite': bool(np.isfinite(first).all()), 'exact': exact, 'others_intact': bool(intact)})
     # random displacements of the root
     if adj[root - 1]:
         nb = [b - 1 for b in adj[root - 1]]
